@@ -444,7 +444,11 @@ func init() {
 		var idx []verifhook.GepIndex
 		for _, s := range a[2:] {
 			p := strings.Split(s, ":")
-			idx = append(idx, verifhook.GepIndex{HasVal: p[0] == "1", Val: atoi64(p[1]), VectorLen: uintArg(p[2])})
+			ix := verifhook.GepIndex{HasVal: p[0] == "1", Val: atoi64(p[1]), VectorLen: uintArg(p[2])}
+			if len(p) > 3 {
+				ix.Scalable = p[3] == "1"
+			}
+			idx = append(idx, ix)
 		}
 		return hexOut([]byte(verifhook.GepResultType(elem, src, idx).String()))
 	})
